@@ -468,6 +468,10 @@ def main(chk: Check):
         chk.check_assumptions("C31/Prop_C31.v")
     chk.lint(["C31"])
     chk.check_fingerprint(ANCHORS)
+    if os.environ.get("VERIF_C31_NO_ESCALATE") == "1" and chk.fingerprint_changed:
+        # self-test knob (notes/C31.md): keep quick budgets for seeded mutations on a loaded machine
+        chk.fingerprint_changed = False
+        chk.note("fingerprint changed; escalation suppressed by VERIF_C31_NO_ESCALATE=1")
 
     timing = chk.cov.setdefault("timing_s", {})
     tlast = [t_start]
